@@ -27,6 +27,12 @@ CHECKS = {
          "Deep nesting: '<div>' + 0/1100/2200 copies of each of 20 element names + 7 closers parse without RecursionError. Numeric references: consumeNumberEntity never raises for any non-negative integer (unbounded). Tokenizer termination rides on C02's obligations (iteration guard).",
     note="Names/tokens by symbolic index over finite lists, run concretely after the fork; inputs outside 'context + <= 2 tokens' and byte inputs are outside the claim; noframes after frameset under html is a listed known finding (standard behaviour). " + NOTE_COMMON,
     design="§3 C03"),
+ "C04": dict(
+    technique="bounded symbolic execution (CrossHair/z3): the etree and dom node primitives in lock-step under a symbolic operation script; the real parser with every builder configuration on catalogue contexts + tokens chosen by symbolic index, abstract trees compared",
+    text="(a) primitives: every script of <= 2 (quick) / 3 (thorough) operations out of appendChild, insertBefore, insertText(+before), reparentChildren, removeChild, attribute assignment, cloneNode with symbolic operands on a 5-node tree, respecting the call preconditions of the tree-construction code, leaves the ElementTree-backed and the minidom-backed trees equal (and hasContent equal) after every step. "
+         "(b) parser level: for every second / every one of 73 contexts and each token (4 tag shapes x ~140 names + 13 others) [thorough: + a second start/end tag over 24 names] + 3 probes, the abstract trees of etree(fullTree), dom, each with namespacing on and off, are equal (HTML namespace normalised), and the etree root-element form equals the html subtree of the full tree.",
+    note="R7 readers (norm_et/norm_dom) trusted; primitive-call preconditions (fresh target for reparentChildren, no text after a removed element) are assumptions derived from the call sites; lxml not installed. " + NOTE_COMMON,
+    design="§3 C04"),
  "C02": dict(
     technique="bounded symbolic execution (CrossHair/z3) of the real tokenizer state methods from catalogue pre-states on a symbolic continuation of arbitrary Unicode characters, differentially against an independent transcription of the WHATWG tokenizer (R1)",
     text="For every state method of the live HTMLTokenizer class (catalogue rebuilt from /repo at check time: 119 pre-states over 7 configurations = 5 start states x last start tag x CDATA allowed/not) the real tokenizer is run from that pre-state on EVERY string of <= 2 (quick) / 3 (thorough) Unicode characters followed by end of input, "
